@@ -218,6 +218,21 @@ def build_repo_bins():
     return 0
 
 
+def build_train_hooks():
+    """the `train` tool built from the working tree with vaporetto's `verif-hooks` feature (hook H5 records what the tool
+    hands to the trainer); a target directory of its own, so the feature does not leak into the other tools"""
+    b = subprocess.run(["cargo", "build", "--release", "--offline", "-p", "train", "--features", "vaporetto/verif-hooks",
+                        "--target-dir", os.path.join(ROOT, "target", "repo-hooks")], cwd="/repo", capture_output=True, text=True, env=ENV)
+    if b.returncode != 0:
+        print(b.stderr[-3000:])
+        return 2
+    return 0
+
+
+def build_repo_bins_and_hooks():
+    return build_repo_bins() or build_train_hooks()
+
+
 def miri_c18(tier, seed):
     """C18 (thorough tier only): a few dozen small-model C18 histories executed under Miri, which checks every unchecked
     access, pointer use and `from_utf8_unchecked`-style assumption that the debug-assertion build can only check where a
